@@ -39,14 +39,14 @@ def map_tus(modname, funcname, tus, repo=REPO, extra=(), jobs=None):
     # parse what is not cached yet first (longest first), then analyse
     cfront.load_tus(tus, repo, load=False)
     work = [(modname, funcname, t, repo, tuple(extra)) for t in tus]
-    jobs = jobs or min(16, os.cpu_count() or 4, len(work))
+    jobs = jobs or min(int(os.environ.get("VERIF_JOBS", "16")), os.cpu_count() or 4, len(work))
     out = {}
     errs = []
     if jobs <= 1:
-        results = map(_worker, work)
+        results = list(map(_worker, work))
     else:
-        ex = cf.ProcessPoolExecutor(jobs)
-        results = ex.map(_worker, work)
+        with cf.ProcessPoolExecutor(jobs) as ex:
+            results = list(ex.map(_worker, work))
     for tu, r, err in results:
         if err:
             errs.append(f"{tu}: {err}")
